@@ -6,8 +6,8 @@ import PromProofs.DiscoveryInv
   C47 — Service discovery converges to the latest target groups.
 
   Model: `PromModel/Discovery/Manager.lean` (transition system over the atomic actions of discovery/manager.go:
-  U1 `updateGroup`, U2 trigger, S1 take trigger, S2a `allGroups` snapshot, S2b non-blocking hand-over with
-  re-arming, atomic `ApplyConfig`, consumer receive/leave).  All theorems quantify over EVERY action sequence
+  U1 `updateGroup`, U2 trigger, S1 take trigger, S2a `allGroups` snapshot taken provider by provider (not atomic),
+  S2b non-blocking hand-over with re-arming, atomic `ApplyConfig`, consumer receive/leave).  All theorems quantify over EVERY action sequence
   (`run {} acts = some s`): any number of providers, jobs, updates, reloads, any interleaving, any consumer.
 
   The liveness half of the statement ("once updates stop …") is proved as a safety property of quiescent states:
@@ -38,14 +38,17 @@ theorem safety_invariant {s : State} (h : Reachable s) :
       · exact Or.inr (Or.inr (Or.inl hm))
   · exact Or.inr (Or.inr (Or.inr hs))
 
-/-- A snapshot in flight (taken by S2a, not yet handed over by S2b) is current unless a newer trigger exists. -/
-theorem snapshot_in_flight_current {s : State} (h : Reachable s) (snap : Snap) (hs : s.sender = .snapped snap) :
-    snap = allGroups s ∨ s.pending = true ∨ s.mid ≠ [] := by
+/-- A snapshot in progress (S2a has visited some providers, `rest` are still to come; updaters may have run in
+    between) or in flight (`rest = []`, not yet handed over): completing it against the current targets gives
+    the current `allGroups`, unless a newer trigger exists or an updater is on its way to set one. -/
+theorem snapshot_in_flight_current {s : State} (h : Reachable s) (acc : Snap) (rest : List Provider)
+    (hs : s.sender = .snapping acc rest) :
+    rest.foldl (agProv s.targets) acc = allGroups s ∨ s.pending = true ∨ s.mid ≠ [] := by
   have hI := reachable_inv h
   by_cases hp : s.pending = true
   · exact Or.inr (Or.inl hp)
   · by_cases hm : s.mid = []
-    · exact Or.inl (hI.send_snapped snap hs (by simpa using hp) hm)
+    · exact Or.inl (hI.send_snapping acc rest hs (by simpa using hp) hm)
     · exact Or.inr (Or.inr hm)
 
 /-- `updateGroup` folded over any history of slices leaves, under each source, the latest group sent for that
@@ -153,10 +156,13 @@ theorem no_update_lost_slow_consumer (s s' : State) (h : step s .s2send = some s
   cases hs : s.sender with
   | idle => rw [hs] at h; simp at h
   | took => rw [hs] at h; simp at h
-  | snapped snap =>
+  | snapping snap rest =>
     rw [hs] at h
-    simp only [hbusy, Bool.false_eq_true, if_false, Option.some.injEq] at h
-    subst h; simp
+    cases rest with
+    | cons p r => simp at h
+    | nil =>
+      simp only [hbusy, Bool.false_eq_true, if_false, Option.some.injEq] at h
+      subst h; simp
 
 /-- … and every applied update leaves the trigger set or its updater still on the way to setting it. -/
 theorem update_always_triggers (s s' : State) (pid : Pid) (u : Upd) (h : step s (.u1 pid u) = some s') :
@@ -190,16 +196,141 @@ theorem provider_ids_unique {s : State} (h : Reachable s) :
     (s.providers.map (·.id)).Nodup ∧ ∀ p ∈ s.providers, p.id < s.lastProvider :=
   ⟨(reachable_inv h).ids_nodup, (reachable_inv h).ids_lt⟩
 
+/-! ### canonical schedule -/
+
+open Prom.Discovery.Suite
+
+theorem run_snoc (s : State) (acts : List Action) (a : Action) :
+    run s (acts ++ [a]) = (run s acts).bind (fun s1 => step s1 a) := by
+  induction acts generalizing s with
+  | nil =>
+    cases h : step s a <;> simp [run, h]
+  | cons b r ih =>
+    simp only [List.cons_append, run]
+    cases step s b with
+    | none => rfl
+    | some s1 => exact ih s1
+
+theorem reachable_step {s s' : State} (a : Action) (h : Reachable s) (hs : step s a = some s') : Reachable s' := by
+  obtain ⟨acts, h⟩ := h
+  exact ⟨acts ++ [a], by rw [run_snoc, h]; exact hs⟩
+
+theorem reachable_stepD {s : State} (a : Action) (h : Reachable s) : Reachable (stepD s a) := by
+  unfold stepD
+  cases hs : step s a with
+  | none => exact h
+  | some s' => exact reachable_step a h hs
+
+/-- States between two ops of the suite's canonical schedule: reachable, nobody inside an action. -/
+def Canon (s : State) : Prop := Reachable s ∧ s.sender = .idle ∧ s.mid = []
+
+theorem canon_init : Canon {} := ⟨⟨[], rfl⟩, rfl, rfl⟩
+
+theorem reachable_snapAll_aux (rest : List Provider) (acc : Snap) (s : State) (hs : s.sender = .snapping acc rest)
+    (h : Reachable s) :
+    Reachable { s with sender := .snapping (rest.foldl (agProv s.targets) acc) [] } := by
+  induction rest generalizing acc s with
+  | nil =>
+    simp only [List.foldl_nil]
+    have : { s with sender := SenderPc.snapping acc [] } = s := by rw [← hs]
+    rw [this]; exact h
+  | cons p r ih =>
+    have hstep : step s .s2prov = some { s with sender := .snapping (agProv s.targets acc p) r } := by
+      simp only [step, hs]
+    have := ih (agProv s.targets acc p) _ rfl (reachable_step .s2prov h hstep)
+    simpa using this
+
+/-- The macro step `snapAll` of the suite is a sequence of `s2prov` steps. -/
+theorem reachable_snapAll {s : State} (h : Reachable s) : Reachable (snapAll s) := by
+  unfold snapAll
+  cases hs : s.sender with
+  | idle => exact h
+  | took => exact h
+  | snapping acc rest => exact reachable_snapAll_aux rest acc s hs h
+
+/-- The consumer's wait in the canonical schedule ends in a quiescent state. -/
+theorem deliver_quiescent {s : State} (h : Canon s) : Canon (deliver s) ∧ quiescent (deliver s) := by
+  obtain ⟨hr, hs, hm⟩ := h
+  have hr' : Reachable (deliver s) := by
+    unfold deliver
+    simp only
+    split
+    · exact reachable_stepD _ (reachable_snapAll (reachable_stepD _ (reachable_stepD _ (reachable_stepD _ hr))))
+    · exact reachable_stepD _ (reachable_stepD _ hr)
+  have hq : quiescent (deliver s) := by
+    unfold deliver quiescent
+    by_cases hp : s.pending = true
+    · simp [stepD, step, snapAll, hp, hs, hm]
+    · have hp' : s.pending = false := by simpa using hp
+      simp [stepD, step, hp', hs, hm]
+  exact ⟨⟨hr', hq.1, hq.2.2⟩, hq⟩
+
+theorem canon_applyConfig {s : State} (h : Canon s) (cfg : List (Job × List Cfg)) :
+    Canon (stepD s (.applyConfig cfg)) := by
+  obtain ⟨hr, hs, hm⟩ := h
+  refine ⟨reachable_stepD _ hr, ?_, ?_⟩
+  · simp [stepD, step, applyConfig, hs]
+  · simp [stepD, step, applyConfig, hm, hs]
+
+theorem canon_update {s : State} (h : Canon s) (pid : Pid) (u : Upd) :
+    Canon (stepD (stepD s (.u1 pid u)) (.u2 pid)) := by
+  obtain ⟨hr, hs, hm⟩ := h
+  refine ⟨reachable_stepD _ (reachable_stepD _ hr), ?_, ?_⟩
+  · cases hf : findProv s pid <;> simp [stepD, step, hf, hm, hs]
+  · cases hf : findProv s pid <;> simp [stepD, step, hf, hm]
+
+/-- Every op of the suite keeps the model between actions … -/
+theorem modelOp_canon {s : State} (h : Canon s) (op : String) : Canon (modelOp s op).1 := by
+  unfold modelOp
+  split
+  · split
+    · exact canon_applyConfig h _
+    · exact h
+  · split
+    · split
+      · exact canon_update h _ _
+      · exact h
+    · exact h
+  · exact h
+  · exact h
+  · exact (deliver_quiescent h).1
+  · exact (deliver_quiescent h).1
+  · exact h
+
+/-- … so after a `quiesce` op the model is in a quiescent reachable state, and what it prints is — by
+    `quiescent_delivered_latest` — the latest non-empty group of every source of every provider of each job. -/
+theorem model_quiesce_is_quiescent {s : State} (h : Canon s) (op : String) (hop : toks op = ["quiesce"]) :
+    Reachable (modelOp s op).1 ∧ quiescent (modelOp s op).1 ∧
+    (modelOp s op).2 = renderSnap (modelOp s op).1.delivered := by
+  have e : modelOp s op = (deliver s, renderSnap (deliver s).delivered) := by
+    unfold modelOp
+    rw [hop]
+    first | rfl | simp | decide
+  rw [e]
+  exact ⟨(deliver_quiescent h).1.1, (deliver_quiescent h).2, rfl⟩
+
+/-- State of the suite's model after a whole script. -/
+def finalState (s : State) : List String → State
+  | [] => s
+  | op :: r => finalState (Prom.Discovery.Suite.modelOp s op).1 r
+
+theorem finalState_canon (ops : List String) {s : State} (h : Canon s) : Canon (finalState s ops) := by
+  induction ops generalizing s with
+  | nil => exact h
+  | cons op r ih => exact ih (modelOp_canon h op)
+
 /-! ### the hypotheses are satisfiable: a concrete run with three jobs, a shared provider, the static
     fallback, a slow consumer (failed hand-over, re-armed) and an emptied source; and a reload dropping a provider -/
 
 def demoActs : List Action :=
   [ .applyConfig [(1, [1, 2]), (2, [1]), (3, [])],
     .u1 0 [some ⟨1, 1, 2⟩, some ⟨2, 2, 1⟩], .u2 0,
-    .s1, .s2snap, .s2send,                       -- consumer not waiting: re-armed
+    .s1, .s2begin, .s2prov, .s2prov, .s2prov, .s2send,   -- consumer not waiting: re-armed
     .u1 1 [some ⟨1, 3, 1⟩], .u2 1,
-    .u1 0 [some ⟨2, 4, 0⟩, none], .u2 0,          -- source 2 of provider 0 emptied
-    .receive, .s1, .s2snap, .s2send ]
+    .receive, .s1, .s2begin, .s2prov,
+    .u1 0 [some ⟨2, 4, 0⟩, none], .u2 0,          -- source 2 of provider 0 emptied in the middle of the snapshot
+    .s2prov, .s2prov, .s2send,                   -- delivers a stale group for job 1 … but the trigger is set again
+    .receive, .s1, .s2begin, .s2prov, .s2prov, .s2prov, .s2send ]
 
 def demoState : State := (run {} demoActs).getD {}
 
@@ -216,7 +347,7 @@ example : quiescent demoState := by decide
 example : demoState.delivered = [(1, [⟨1, 1, 2⟩, ⟨1, 3, 1⟩]), (2, [⟨1, 1, 2⟩]), (3, [])] := by decide
 /-- a hand-over that fails because the consumer is away -/
 example : ∃ s, (step s .s2send).isSome = true ∧ s.consumerReady = false :=
-  ⟨(run {} (demoActs.take 5)).getD {}, by decide, by decide⟩
+  ⟨(run {} (demoActs.take 8)).getD {}, by decide, by decide⟩
 
 def demo2 : List Action :=
   [ .applyConfig [(1, [1])], .u1 0 [some ⟨1, 1, 2⟩], .u2 0, .applyConfig [(1, [2])] ]
